@@ -1,14 +1,14 @@
 PROP = dict(
-  units=['hms', 'hmm'],
+  units=['hms', 'hmm', 'cxxstatic:hmm,hms'],
   level='other',
   strict_obligations=True,
-  obligations=['hms.find.*', 'hms.contains.*', 'hms.find_key.*', 'hms.insert.*', 'hms.erase.*', 'hms.iter.erase.*',
+  obligations=['static.hmm.no_use_after_move', 'static.hms.no_use_after_move', 'hms.find.*', 'hms.contains.*', 'hms.find_key.*', 'hms.insert.*', 'hms.erase.*', 'hms.iter.erase.*',
                'hmm.order.total', 'hmm.map_to_bucket.range', 'hmm.find.*', 'hmm.mem.safe', 'hmm.insert.*', 'hmm.erase.*', 'hmm.iter.erase.*'],
   explanation='Set/map refinement of find / contains / emplace / emplace_or_get / get_or_emplace(_lazy) / operator[] / erase(key) / erase(iterator) on the extracted text of both '
               'Harris-Michael containers, from ANY well-formed list (symbolic keys and hashes, arbitrary delete marks, unlinked marked nodes still pointing into the list), '
               'ordering predicates total (both memoize_hash modes), and in INT mode (unbounded legal interference, retry loops cut by invariants) the commit obligations: every CAS '
               'is a legal link/mark/unlink step on the value validated last. Concurrent linearizability from these guarantees is the assumed lemma.',
-  assumptions=['composition lemma: Harris / Michael linearizability argument from the per-operation contracts and commit obligations',
+  assumptions=['supporting static fact (clang-tidy bugprone-use-after-move on instantiations of the real templates, unit cxxstatic): heuristic check, covers the value-category semantics (std::move) that the C lowering drops', 'composition lemma: Harris / Michael linearizability argument from the per-operation contracts and commit obligations',
                'guard_ptr operations are stubs by contract (proved per reclaimer in the reclaimer units)', 'operator>= on Key is a total order consistent with ==; the hash is a function of the key',
                'shapes: list length L <= 3 (thorough 5), buckets {1,2} (thorough 3); INT mode sequentially consistent'],
   trusted_base=[],
